@@ -118,7 +118,7 @@ def _init_worker(legend):
     _W["envs"] = {}
     import warnings
     warnings.simplefilter("ignore")  # SyntaxWarnings of compile() about odd but valid generated code
-    signal.signal(signal.SIGPROF, _alarm)
+    signal.signal(signal.SIGVTALRM, _alarm)
 
 
 def _env(name):
@@ -206,7 +206,7 @@ def load(envname, src, want_ast):
     """Loads one source; returns the projected outcome."""
     from jinja2 import TemplateSyntaxError
     env = _env(envname)
-    signal.setitimer(signal.ITIMER_PROF, 5.0)  # CPU time of this process: robust against a loaded machine
+    signal.setitimer(signal.ITIMER_VIRTUAL, 5.0)  # user CPU time of this process: robust against a loaded machine
     try:
         try:
             env.from_string(src)
@@ -214,7 +214,7 @@ def load(envname, src, want_ast):
                 ast.parse(env.compile(src, raw=True))
             return {"class": "ok", "lineno": 0}
         finally:
-            signal.setitimer(signal.ITIMER_PROF, 0)
+            signal.setitimer(signal.ITIMER_VIRTUAL, 0)
     except TemplateSyntaxError as e:
         ln = e.lineno
         return {"class": "tse", "lineno": ln if isinstance(ln, int) and 0 <= ln < 10**6 else -1,
@@ -376,6 +376,8 @@ def run(ck):
     agg = {}
     loads = 0
     chunks = [(c, ck.seed, tier) for c in core.chunks(lines, 400)]
+    import gc
+    gc.freeze()  # keep the collector of the forked workers away from the (large) case list
     with mp.get_context("fork").Pool(min(16, ncpu), initializer=_init_worker, initargs=(legend,)) as pool:
         for n, ncases, part in pool.imap_unordered(_work, chunks):
             loads += n
